@@ -448,6 +448,24 @@ func famAggregation() family {
 		desc:   fmt.Sprintf("plain header x payload byte 0 over all 256 values x bytes 1-4 in {%s} x bytes 5-11 = 01,67,00,05,67,00,00 x every prefix length 0..24 (AV1 aggregation header/LEB128 lengths; H264 STAP/MTAP/FU 16-bit lengths)", hexs(a))}
 }
 
+// famAV1OBU: payloads that get past the AV1 aggregation header and the
+// sequence-header test of the keyframe classifier: OBU element lengths and
+// OBU header bytes (type, extension flag) as symbols.
+func famAV1OBU() family {
+	pos := [][]byte{
+		{0x08, 0x18, 0x28, 0x38, 0x48, 0x98}, // aggregation header: W=0..3 with Z=0,N=1; N=0; Z=1
+		{0x00, 0x01, 0x02, 0x80},             // length of the first OBU element (LEB128)
+		{0x08, 0x0C, 0x30, 0x00},             // its header: sequence header (without / with extension flag), frame, reserved
+		{0x00, 0x01, 0x02, 0x34, 0x30, 0x1C}, // second byte of OBU 1, or length / header of OBU 2
+		{0x00, 0x30, 0x34, 0x18, 0x1C, 0x80}, // OBU 2 header (frame / frame header, with and without extension flag)
+		{0x00, 0x80, 0x34, 0x60},             // frame header byte (show_existing_frame, frame_type) or an extension byte
+		{0x00, 0x34},
+	}
+	return family{sub: "rtp-pure-av1-h264", shapes: []shape{{}}, pos: pos,
+		codecs: []string{"video/AV1"},
+		desc:   "AV1 OBU grammar: aggregation header in {08,18,28,38,48,98} x element length in {00,01,02,80} x OBU header bytes (sequence header / frame / frame header, with and without the extension flag) x frame-header bytes, every prefix length 0..7"}
+}
+
 // prefixes enumerates the distinct prefixes of the packets of one shape whose
 // first payload byte is pos[0][first]; the header-only prefixes (lengths
 // 0..len(hdr)) are emitted with first == 0.  f returns false to stop.
@@ -1712,6 +1730,8 @@ func runParsersShard(res *core.Result) {
 	units = append(units, pureUnits(fd)...)
 	units = append(units, pureUnits(fh)...)
 	units = append(units, pureUnits(fa)...)
+	fo := famAV1OBU()
+	units = append(units, pureUnits(fo)...)
 
 	wworlds := map[string]*writeWorld{}
 	units = append(units, writeUnits(fh, []string{"vp8", "vp9", "h264", "av1", "opus"}, wworlds)...)
@@ -1719,6 +1739,7 @@ func runParsersShard(res *core.Result) {
 	rworlds := map[string]*readWorld{}
 	units = append(units, readUnits(fh, core.Pick([]string{"vp8", "h264"}, []string{"vp8", "vp9", "h264", "av1", "opus"}), rworlds)...)
 	units = append(units, readUnits(fa, []string{"av1", "h264"}, rworlds)...)
+	units = append(units, readUnits(fo, []string{"av1"}, rworlds)...)
 	if !core.Quick() {
 		units = append(units, readUnits(fd, []string{"vp8", "vp9"}, rworlds)...)
 	}
